@@ -323,6 +323,15 @@ func genCorpus(seed uint64, size int) *proto.Corpus {
 		g.add(proto.Call{Fn: proto.FnValidate, List: rv, Fam: g.fam, Tag: "long"})
 	}
 
+	// key-ambiguity families: argument lists that collide under a naively joined cache
+	// key (strings.Join(list, sep), expr+sep+list): the same text split differently
+	g.joinFamilies()
+
+	// many alternatives: expressions that expand to 8-16 OR-alternatives (a threshold a
+	// "parallelise when large" optimisation would use), satisfied through the first, a
+	// middle, the last alternative or not at all
+	g.wideFamilies()
+
 	// systematic spelling families: every way of writing one identifier (letter case of
 	// the id and of its -only / -or-later suffix, '+', WITH), through every function and
 	// in both argument positions. These are the inputs a sloppily keyed cache confuses.
@@ -492,5 +501,65 @@ func (g *corpusGen) spellingFamilies(per int) {
 			}
 		}
 		g.add(proto.Call{Fn: proto.FnValidate, List: sp, Fam: g.fam, Tag: "spell"})
+	}
+}
+
+var joinSeps = []string{",", " ", "|", ";", "\n", "\x00", "/", ":", "", ", ", "\t", "+"}
+
+func (g *corpusGen) joinFamilies() {
+	r := g.r
+	bases := [][]string{{"BSD-3-Clause", "Zlib"}, {"MIT", "Apache-2.0", "ISC"}, {g.plainID(), g.plainID()}, {g.rangedID(), g.plainID(), g.plainID()}, {"LicenseRef-a", "MIT"}}
+	for _, l := range bases {
+		g.fam++
+		expr := strings.Join(l, " OR ")
+		g.add(proto.Call{Fn: proto.FnSatisfies, Expr: expr, List: l, Fam: g.fam, Tag: "join"})
+		g.add(proto.Call{Fn: proto.FnSatisfies, Expr: l[0], List: l, Fam: g.fam, Tag: "join"})
+		g.add(proto.Call{Fn: proto.FnValidate, List: l, Fam: g.fam, Tag: "join"})
+		for _, sep := range joinSeps {
+			// everything joined into one element; first two joined; last two joined
+			one := []string{strings.Join(l, sep)}
+			cands := [][]string{one}
+			if len(l) > 2 {
+				cands = append(cands, append([]string{l[0] + sep + l[1]}, l[2:]...), append(append([]string{}, l[:len(l)-2]...), l[len(l)-2]+sep+l[len(l)-1]))
+			}
+			for _, c := range cands {
+				g.add(proto.Call{Fn: proto.FnSatisfies, Expr: expr, List: c, Fam: g.fam, Tag: "join"})
+				g.add(proto.Call{Fn: proto.FnSatisfies, Expr: l[0], List: c, Fam: g.fam, Tag: "join"})
+				if r.p(0.5) {
+					g.add(proto.Call{Fn: proto.FnValidate, List: c, Fam: g.fam, Tag: "join"})
+				}
+			}
+			// boundary between the expression and the list
+			g.add(proto.Call{Fn: proto.FnSatisfies, Expr: l[0] + sep + l[1], List: l[1:], Fam: g.fam, Tag: "join"})
+			g.add(proto.Call{Fn: proto.FnSatisfies, Expr: l[0] + sep + l[0], List: l[1:], Fam: g.fam, Tag: "join"})
+		}
+	}
+}
+
+func (g *corpusGen) wideFamilies() {
+	r := g.r
+	for k := 0; k < 4; k++ {
+		g.fam++
+		n := []int{8, 9, 13, 16}[k]
+		ids := make([]string, 0, n)
+		for len(ids) < n {
+			id := g.plainID()
+			if !contains(ids, id) {
+				ids = append(ids, id)
+			}
+		}
+		chain := strings.Join(ids, " OR ")
+		// 2 x 2 x 2 (x 2) alternatives through AND-ed OR groups
+		grid := "(" + ids[0] + " OR " + ids[1] + ") AND (" + ids[2] + " OR " + ids[3] + ") AND (" + ids[4] + " OR " + ids[5] + ")"
+		other := g.plainID()
+		lists := [][]string{{ids[0]}, {ids[n/2]}, {ids[n-1]}, {other}, {ids[n-1], other, ids[0]}, ids, {ids[0], ids[2], ids[4]}, {ids[1], ids[3], ids[5]}, {ids[0], ids[3]}}
+		for _, l := range lists {
+			g.add(proto.Call{Fn: proto.FnSatisfies, Expr: chain, List: l, Fam: g.fam, Tag: "wide"})
+			g.add(proto.Call{Fn: proto.FnSatisfies, Expr: grid, List: l, Fam: g.fam, Tag: "wide"})
+		}
+		g.add(proto.Call{Fn: proto.FnExtract, Expr: chain, Fam: g.fam, Tag: "wide"})
+		g.add(proto.Call{Fn: proto.FnExtract, Expr: grid, Fam: g.fam, Tag: "wide"})
+		g.add(proto.Call{Fn: proto.FnValidate, List: ids, Fam: g.fam, Tag: "wide"})
+		_ = r
 	}
 }
